@@ -151,7 +151,8 @@ impl Cfg {
     /// of the builder history chosen by a key byte: before the keys, after them, or the opposite mode
     /// before and the wanted one after (the last call decides)
     pub fn reader_config_mode(&self, authenticated: Option<bool>) -> ArchiveReaderConfig {
-        let mut c = ArchiveReaderConfig::new();
+        // `new()` or `default()` (both are public ways to start a reader configuration), chosen by a key byte
+        let mut c = if self.layers & L_ENC != 0 && !self.recipients.is_empty() && self.recipients[self.reader][4] % 3 == 0 || self.layers & L_ENC == 0 && self.level % 2 == 1 { ArchiveReaderConfig::default() } else { ArchiveReaderConfig::new() };
         let set = |c: &mut ArchiveReaderConfig, a: bool| { if a { c.failsafe_return_only_authenticated_data(); } else { c.failsafe_return_data_even_unauthenticated(); } };
         let place = if self.layers & L_ENC != 0 && !self.recipients.is_empty() { self.recipients[self.reader][3] % 3 } else { 1 };
         if let Some(a) = authenticated {
@@ -266,10 +267,15 @@ pub fn build_streamed<R: std::io::Read>(cfg: &Cfg, ops: &[Op], mut mk_src: impl 
             Op::Start(n) => match w.start_file(n) { Ok(id) => format!("id:{id}"), Err(e) => err_class(&e) },
             Op::Append { id, size, src } if *size as usize == src.len() => {
                 let mut sw = mla::helpers::StreamWriter::new(&mut w, *id);
-                match std::io::copy(&mut mk_src(src.clone()), &mut sw) {
-                    Ok(n) if n == *size => "ok".to_string(),
-                    Ok(n) => format!("copied:{n}"),
-                    Err(e) => io_err_class(&e),
+                if src.len() % 3 == 1 {
+                    // the whole piece in ONE `write_all` call (a caller holding the data in memory), whatever its size
+                    match std::io::Write::write_all(&mut sw, src) { Ok(()) => "ok".to_string(), Err(e) => io_err_class(&e) }
+                } else {
+                    match std::io::copy(&mut mk_src(src.clone()), &mut sw) {
+                        Ok(n) if n == *size => "ok".to_string(),
+                        Ok(n) => format!("copied:{n}"),
+                        Err(e) => io_err_class(&e),
+                    }
                 }
             }
             Op::Append { id, size, src } => res_string(&w.append_file_content(*id, *size, &src[..])),
